@@ -120,8 +120,24 @@ fn gen_op(rng: &mut Rng, pool: &mut Vec<Vec<char>>) -> Op {
     let s = pool[si].clone();
     let len = s.len();
     let c = *rng.pick(&CHARS);
-    let k = rng.usize(30);
+    let k = rng.usize(32);
     match k {
+        30 | 31 => {
+            // a pool variable is rebound to a string that must be newly allocated: later mutations of either
+            // string must not show in the other (checked by the pool snapshots after every operation)
+            let a = rng.usize(POOL);
+            let which = rng.usize(6);
+            let (e, name): (String, &'static str) = match which {
+                0 => (format!("(string-append s{})", si), "string-append"),
+                1 => (format!("(string-copy s{})", si), "string-copy"),
+                2 => (format!("(substring s{} 0 {})", si, len), "substring"),
+                3 => (format!("(string-append s{} (make-string 0 #\\a))", si), "string-append"),
+                4 => (format!("(list->string (string->list s{}))", si), "list->string"),
+                _ => (format!("(string-append (make-string 0 #\\a) s{})", si), "string-append"),
+            };
+            pool[a] = s.clone();
+            Op { expr: format!("(set! s{} {})", a, e), name, expect: Ok(MV::Unspec), arg_class: format!("rebind:{}", if which == 0 { "one-argument" } else { "fresh-copy" }) }
+        }
         0 => Op { expr: format!("(string-length s{})", si), name: "string-length", expect: Ok(MV::Int(len as i64)), arg_class: String::new() },
         1 | 2 => {
             let i = pick_idx(rng, len);
